@@ -132,7 +132,11 @@ func (s *scenario) partsOf(topics []string) []kafka.Partition {
 func (s *scenario) okReply(c kafka.VerifCoordCall) kafka.VerifCoordReply {
 	switch c.Method {
 	case "findCoordinator":
-		return kafka.VerifCoordReply{Host: "coord", Port: 9092}
+		// where the coordinator lives varies (host name, IPv4, IPv6 literal, unusual ports): the next connect must dial it
+		host := []string{"coord", "coord", "10.1.2.3", "k-7.internal", "fe80::1", "::1"}[s.rng.Intn(6)]
+		port := []int32{9092, 9092, 19093, 443, 65535, 1}[s.rng.Intn(6)]
+		kafka.VerifGroupEmit("H.Coord", host, port)
+		return kafka.VerifCoordReply{Host: host, Port: port}
 	case "joinGroup":
 		m := c.MemberID
 		if m == "" || s.rng.Intn(10) == 0 {
@@ -618,7 +622,37 @@ func (s *scenario) emit(name string) {
 			fmt.Fprintln(out, l)
 		}
 	}
+	for _, l := range coordAddrLines(evs, s.wire) {
+		if !seenBody[l] {
+			seenBody[l] = true
+			fmt.Fprintln(out, l)
+		}
+	}
 	_ = name
+}
+
+// coordAddrLines: after a FindCoordinator that the library concluded successful (answer host/port journalled as H.Coord
+// by the scenario), the next connect is the dial of the coordinator: `coordaddr <host> <port>\t<address dialled>`.
+func coordAddrLines(evs []kafka.VerifEvent, wire bool) []string {
+	var lines []string
+	host, port, pending := "", "", false
+	for _, e := range evs {
+		a := e.Args
+		switch {
+		case e.Kind == "H.Coord":
+			host, port = a[0], a[1]
+		case e.Kind == "M.Ret" && a[1] == "findCoordinator":
+			pending = !wire && a[2] == "-"
+		case e.Kind == "M.Wire" && a[1] == "findCoordinator":
+			pending = a[2] == "-"
+		case e.Kind == "M.Call" && a[1] == "connect":
+			if pending && host != "" {
+				lines = append(lines, fmt.Sprintf("coordaddr %s %s\t%s", host, port, a[4]))
+			}
+			pending = false
+		}
+	}
+	return lines
 }
 
 // ---------------------------------------------------------------- scripted helpers
@@ -872,6 +906,7 @@ func main() {
 		scenarioHeartbeatRate(rng)
 		scenarioLateNext(rng)
 		scenarioOptions()
+		scenarioDefaults()
 	}
 	if only == "d8" {
 		scenarioD8(rng)
